@@ -83,8 +83,16 @@ def record(prop, tier, wd, pre):
         sets.append(("joined-statements+random", p3, 2, n))
     elif prop == "C15":
         p1 = os.path.join(wd, pre + "a")
+        # every reserved word of the specification's keyword table (LexerCore.tla) in three letter cases, and its near misses
+        kwin = os.path.join(wd, "keywords.in")
+        import re
+        kws = re.findall(r'"([A-Z_0-9]+)"', open(os.path.join(common.SPEC, "LexerCore.tla")).read().split("Keywords ==", 1)[1].split("}", 1)[0])
+        with open(kwin, "w") as fh:
+            for k in kws:
+                for v in (k, k.lower(), k.capitalize(), k + "_", "_" + k, k[:-1], k + "1"):
+                    fh.write(json.dumps(list(v.encode())) + "\n")
         args = ["quoterec", "-chunks", cfg["chunks"], "-out", p1, "-codepoints", cfg["cps"], "-seed", common.seed(),
-                "-random", cfg["random"], "-rlen", 10]
+                "-random", cfg["random"], "-rlen", 10, "-in", kwin]
         if cfg["all2"]:
             args.append("-all2")
         n = harness_json(args)["records"]
@@ -209,7 +217,7 @@ def run(prop, tier):
     chk.cov["exhaustive"] = True
     chk.cov["rule"] = {
         "C12": "every string up to the stated length over a 12-byte split alphabet and a 9-byte raw-string/comment alphabet (exhaustive), ';'-joined statement lists with trivia and literals containing ';', seed-random strings; one SplitRawStatements call per input, validated by TLC against SplitOK over the reference lexer; inputs are distinct",
-        "C15": "every 1- and 2-byte string (exhaustive), Unicode code points (all in thorough, block boundaries + seed sample in quick) alone and embedded, seed-random byte strings incl. invalid UTF-8; one record per (function, argument), validated by TLC: the reference lexer must read the result as exactly one token of the right kind with the argument as value",
+        "C15": "every reserved word of the specification's keyword table in three letter cases and four near misses each, every 1- and 2-byte string (exhaustive), Unicode code points (all in thorough, block boundaries + seed sample in quick) alone and embedded, seed-random byte strings incl. invalid UTF-8; one record per (function, argument), validated by TLC: the reference lexer must read the result as exactly one token of the right kind with the argument as value",
         "C20": "every buffer up to the stated length over {a, \\n, \\r, 0xC3, 0xA9} x every 0 <= pos <= end <= len, on a fresh File and on a shared File in descending and shuffled query order (exhaustive), seed-random longer buffers, plus every error of a set of broken multi-line inputs; each record validated by TLC against File.tla (line, column, excerpt, prefix)",
     }[prop]
     still = confirm(prop, list(rejected.values())[:3000], wd)
